@@ -102,3 +102,16 @@ package index
 //@   ensures result1 == nil ==> result0 != nil
 //@   ensures result1 == nil ==> result0.final == fn
 //@   ensures result1 != nil ==> result0 == nil
+
+// ---------------------------------------------------------------------------
+// C12: an indexing run that failed outside the builder installs nothing
+// ---------------------------------------------------------------------------
+
+// MarkFailed: after it the builder carries an error whenever it was given one
+// (Finish then discards what was built - see the ensures of Finish above: a
+// builder with an error installs nothing).
+//@ func index.(*Builder).MarkFailed
+//@   requires b != nil
+//@   ensures err != nil ==> b.buildError != nil
+//@   ensures err == nil ==> b.buildError == old(b.buildError)
+//@   assigns b.buildError
